@@ -346,6 +346,37 @@ theorem C27_accept_total (W : World) (fuel : Nat) (repo0 : Repo) (rq : Request)
     simpa using hall k hk
   simp only [this]
 
+/-! ## the result does not depend on the fuel -/
+
+/-- **More fuel changes nothing.**  Once a load did not stop for lack of fuel, every larger fuel
+value gives the very same result (repository or error), for every world — no well-formedness
+needed. -/
+theorem C27_fuel_mono (W : World) (n m : Nat) (hnm : n ≤ m) (repo0 : Repo) (rq : Request)
+    (hne : load Gen.checkParamsBody W n repo0 rq ≠ .error .fuel) :
+    load Gen.checkParamsBody W m repo0 rq = load Gen.checkParamsBody W n repo0 rq := by
+  unfold load at hne ⊢
+  cases hf : runFor Gen.checkParamsBody rq.defs (rq.kwargs.map (·.1)) with
+  | some k => rfl
+  | none =>
+    simp only [hf] at hne ⊢
+    by_cases hs : rq.isStr = true
+    · simp only [hs, Bool.not_true, Bool.false_eq_true, if_false] at hne ⊢
+      by_cases hc : (rq.viaFile && has repo0 rq.file) = true
+      · simp [hc]
+      · simp only [hc, Bool.false_eq_true, if_false] at hne ⊢
+        exact loadFile_more W n m hnm repo0 rq.file rq.kwargs hne
+    · simp [hs]
+
+/-- **The load is a function of the world**: with at least one unit of fuel per file the result
+is the same for all fuel values (the fuel is an artefact of the model, not an input). -/
+theorem C27_fuel_indep (W : World) (hW : W.WF) (fuel fuel' : Nat) (repo0 : Repo) (rq : Request)
+    (hfile : rq.file < W.files.length)
+    (hfresh : rq.viaFile = false → has repo0 rq.file = false)
+    (h1 : W.files.length ≤ fuel) (h2 : W.files.length ≤ fuel') :
+    load Gen.checkParamsBody W fuel repo0 rq = load Gen.checkParamsBody W fuel' repo0 rq := by
+  have hne := C27_terminates W hW W.files.length repo0 rq hfile hfresh (Nat.le_refl _)
+  rw [C27_fuel_mono W _ fuel h1 repo0 rq hne, C27_fuel_mono W _ fuel' h2 repo0 rq hne]
+
 /-! ## non-vacuity: a three-file world with an import cycle and a cached model -/
 
 /-- f0 imports f1 and f2; f1 imports f0 (cycle) and f2; f2 imports itself -/
